@@ -276,8 +276,8 @@ def structFirstUnion : Obj → Bool
   | _ => false
 
 /-- `FieldMeta.__getitem__(cls, val)`: what `Array[val]`, `AnyOf[val, …]`, `Field[val]` make of `val`.
-    On a Structure-first PEP 604 union it calls itself with the unchanged value until the interpreter gives up
-    (finding `pep604-structure-first-nested`). -/
+    (A Structure-first PEP 604 union used to make it call itself forever - finding `pep604-structure-first-nested`,
+    fixed in typedpy 4d54fb6: `convert_field_type_if_possible` converts every `types.UnionType` like `typing.Union`.) -/
 def getItem (tm : TypeMap) (o : Obj) : R FieldDecl :=
   match o with
   | .finst d => .ok d
@@ -285,7 +285,7 @@ def getItem (tm : TypeMap) (o : Obj) : R FieldDecl :=
   | .noneV => .ok .noneF
   /- `Structure in val.__mro__`: `ClassReference(val)` -/
   | .scls d => .ok d
-  | _ => if structFirstUnion o then .error (.other "RecursionError") else getItemFallback tm o (gtli tm o)
+  | _ => getItemFallback tm o (gtli tm o)
 
 /-- `_map_to_field(item)`: the `items=` keyword -/
 def mapToField : Obj → R (Option FieldDecl)
@@ -296,15 +296,15 @@ def mapToField : Obj → R (Option FieldDecl)
   | _ => .error .typeErr
 
 /-- the `items=` keyword of `cls(items=X)`: `_map_to_field` for Array / Set / ImmutableSet / Deque; `Tuple.__init__`
-    has its own conversion, which knows Field classes and instances only (a Structure class is a TypeError there:
-    finding `tuple-items-structure-class`) -/
-def callItem (c : Coll) (o : Obj) : R (Option FieldDecl) :=
-  if c == .tuple && isSclsObj o then .error .typeErr else mapToField o
+    has its own conversion with the same outcome on the modelled vocabulary (a Structure class is wrapped in a
+    ClassReference since typedpy cdab473: former finding `tuple-items-structure-class`) -/
+def callItem (_c : Coll) (o : Obj) : R (Option FieldDecl) := mapToField o
 
 /-- one entry of `Tuple(items=[…])` -/
 def tupleItem : Obj → R FieldDecl
   | .finst d => .ok d
   | .fcls h => defaultDecl h
+  | .scls d => .ok d
   | .noneV => .error (.other "AttributeError")
   | _ => .error .typeErr
 
@@ -667,12 +667,11 @@ def stringAnn (future : Bool) (fs : FieldSp) : Bool := fs.mode == .ann && (futur
     `_evaluate_if_future_annotations` with the module globals and the locals of the frame executing the
     class statement: names of the module, and of the function that directly contains the class, resolve;
     locals of an enclosing function only if that function's code captures them (otherwise NameError, PEP 563).
-    A quoted annotation under the future import is stored as the text of a string literal, evaluates to a
-    `str` again and declares nothing; without the import a string of 50 or more characters is not evaluated
-    at all. -/
+    A quoted annotation under the future import is stored as the text of a string literal and is evaluated twice;
+    every string annotation is evaluated whatever its length (typedpy fix of `quoted-under-future-import` /
+    `quoted-annotation-50`), so quoting does not influence the result. -/
 def elabFieldAt (sc : Scope) (O : Oracles) (tm : TypeMap) (future : Bool) (fs : FieldSp) : R FieldRes :=
-  if fs.mode == .ann && fs.quoted && (future || decide (50 ≤ annLenField fs)) then .ok .dropped
-  else if stringAnn future fs && sc == .enclosing && fs.unresolved then .error (.other "NameError")
+  if stringAnn future fs && sc == .enclosing && fs.unresolved then .error (.other "NameError")
   else elabField O tm future fs
 
 structure ClassSp where
